@@ -90,32 +90,47 @@ func runJob(j c56.Job, mode string, g, r int) result {
 	if len(j.Vars) > 0 {
 		varText = j.Vars[0]
 	}
-	var run func(in any, vars []any, ctx context.Context) gojq.Iter
+	// two independent compilations: [run] is shared by the goroutines, [alone] gives the sequential baseline.
+	// The goroutines therefore meet a COLD Code (lazily filled per-Code state such as the regexp cache is
+	// first touched concurrently); for the literal/regex/canonical programs the concurrent phase even runs
+	// before the baseline, so that package-level lazily initialised state is first touched concurrently too.
+	var run, alone func(in any, vars []any, ctx context.Context) gojq.Iter
 	var consts []any
 	if mode == "query" {
+		if strings.Contains(j.Program, "$v") {
+			return result{"skip", "parse"}
+		}
 		q, err := gojq.Parse(j.Program)
-		if err != nil || strings.Contains(j.Program, "$v") {
+		q2, err2 := gojq.Parse(j.Program)
+		if err != nil || err2 != nil {
 			return result{"skip", "parse"}
 		}
 		run = func(in any, vars []any, ctx context.Context) gojq.Iter { return q.RunWithContext(ctx, in) }
+		alone = func(in any, vars []any, ctx context.Context) gojq.Iter { return q2.RunWithContext(ctx, in) }
 	} else {
 		cc, err := c56.Compile(j.Program, []string{"$v"})
-		if err != nil {
+		cc2, err2 := c56.Compile(j.Program, []string{"$v"})
+		if err != nil || err2 != nil {
 			return result{"skip", "compile"}
 		}
 		consts = gojq.VerifCodeConstants(cc.Code)
 		run = func(in any, vars []any, ctx context.Context) gojq.Iter { return cc.Code.RunWithContext(ctx, in, vars...) }
+		alone = func(in any, vars []any, ctx context.Context) gojq.Iter { return cc2.Code.RunWithContext(ctx, in, vars...) }
 	}
-	// sequential baseline on a fresh input
-	ctx0, cancel0 := context.WithTimeout(context.Background(), 400*time.Millisecond)
-	t0 := time.Now()
-	base, to := outputs(run(dec(j.Input), []any{dec(varText)}, ctx0))
-	cancel0()
-	if to && j.Origin != "canon" {
-		return result{"skip", "slow"}
+	cold := j.Origin == "canon" || j.Origin == "literal" || j.Origin == "regex"
+	var base []string
+	baseline := func() (skip bool) {
+		ctx0, cancel0 := context.WithTimeout(context.Background(), 400*time.Millisecond)
+		defer cancel0()
+		t0 := time.Now()
+		b, to := outputs(alone(dec(j.Input), []any{dec(varText)}, ctx0))
+		base = b
+		return !cold && (to || time.Since(t0) > 60*time.Millisecond)
 	}
-	if time.Since(t0) > 60*time.Millisecond && j.Origin != "canon" {
-		return result{"skip", "slow"}
+	if !cold {
+		if baseline() {
+			return result{"skip", "slow"}
+		}
 	}
 	shared := c56.Alias(dec(j.Input), 1)
 	sharedVar := c56.Alias(dec(varText), 1)
@@ -143,6 +158,11 @@ func runJob(j c56.Job, mode string, g, r int) result {
 	}()
 	var mu sync.Mutex
 	var firstDiff string
+	type obs struct {
+		w, k int
+		got  []string
+	}
+	var all []obs
 	var wg sync.WaitGroup
 	ctx, cancel := context.WithTimeout(context.Background(), 15*time.Second)
 	defer cancel()
@@ -164,21 +184,11 @@ func runJob(j c56.Job, mode string, g, r int) result {
 				if to {
 					return
 				}
-				if i := c56.FirstDiff(base, got); i >= 0 {
-					mu.Lock()
-					if firstDiff == "" {
-						x, y := "<end>", "<end>"
-						if i < len(base) {
-							x = base[i]
-						}
-						if i < len(got) {
-							y = got[i]
-						}
-						firstDiff = fmt.Sprintf("goroutine %d repetition %d output #%d: alone %s, concurrently %s", w, k, i, clip(x), clip(y))
-					}
-					mu.Unlock()
-					return
+				mu.Lock()
+				if len(all) < 4096 {
+					all = append(all, obs{w, k, got})
 				}
+				mu.Unlock()
 			}
 		}(w)
 	}
@@ -193,6 +203,22 @@ func runJob(j c56.Job, mode string, g, r int) result {
 	}
 	stop.Store(true)
 	rd.Wait()
+	if cold {
+		baseline()
+	}
+	for _, o := range all {
+		if i := c56.FirstDiff(base, o.got); i >= 0 {
+			x, y := "<end>", "<end>"
+			if i < len(base) {
+				x = base[i]
+			}
+			if i < len(o.got) {
+				y = o.got[i]
+			}
+			firstDiff = fmt.Sprintf("goroutine %d repetition %d output #%d: alone %s, concurrently %s", o.w, o.k, i, clip(x), clip(y))
+			break
+		}
+	}
 	if res.status == "ok" && ctx.Err() != nil {
 		res = result{"timeout", "workers exceeded 15 s"}
 	}
